@@ -295,8 +295,8 @@ def multibwr_cases(ctx, rnd, n, model="MultiBWR"):
 
 
 def known_cases(ctx):
-    """MultiBW is documented as a combination of constant-width BW; the code never calls its dom_fun and evaluates
-    MultiBWR.  One fixed reproducer tied to the DOCUMENTED model (fails on the current tree): meta['known'] = 'MultiBW'."""
+    """MultiBW is documented as a combination of constant-width BW; before /repo fix 4a6337b the code never called its
+    dom_fun and evaluated MultiBWR.  The fixed reproducer of that defect, tied to the DOCUMENTED model (regular case now)."""
     mf = {"B": 0.2, "C": 0.15, "D": 0.12}
     amp, part, dec, fin = build("MultiBW", 3, mf, {"mass": 1.0, "mass_list": [0.9], "width_list": [0.1]})
     lsl = dec.get_ls_list()
@@ -307,7 +307,7 @@ def known_cases(ctx):
     expr = "MultiBW_doc %s %s %s %s %s [(%s, %s)] [[polar 1 0]] 0" % (Rq(m), Rq(q2), Rq(q02), nat_list([l for l, _ in lsl]), Rq(D), Rq(0.9), Rq(0.1))
     return [("mbw_known", cplx_stmt(expr, v, rtol=BWR2_RTOL), TAC,
              {"function": "Particle(model=MultiBW).get_ls_amp", "args": {"m": m, "mass_list": [0.9], "width_list": [0.1], "mass": 1.0, "m1": 0.2, "m2": 0.15}, "impl": str(v),
-              "known": "MultiBW", "documented_value": str(1 / (0.81 - m * m - 1j * 0.9 * 0.1))})]
+              "documented_value": str(1 / (0.81 - m * m - 1j * 0.9 * 0.1))})]
 
 
 def cases(ctx, rnd, quick):
